@@ -8,6 +8,7 @@ Driver for C06 and C12 (one module, the batch model of `Model/Batch.lean`):
         -> `ok nbins (k i…)…` | `err MinBinEmpty` | `panic`
   plugin := grid | inject x<key> <json> <0|1> | lbnum x<col> | lbcat x<col> <n (x<sym> bits)…> <n | s bits>
           | table <n> (x<compact query text> (ok <json> | err <Kind> <json>))…
+          | usplit x<key> | ufail x<marker> | ubreak x<key>      (the harness's user-defined plugins)
 
 `respond` is a table from the compact text of an expanded query to the canonical response the real
 `run_single_query` gave for it when run alone.
@@ -66,6 +67,15 @@ def plugin (fmt : Nat → String) : P Plugin := do
   | "table" => do
     let es ← listOf tableEntry
     pure (.table es)
+  | "usplit" => do
+    let k ← JsonProto.str
+    pure (.userSplit k)
+  | "ufail" => do
+    let k ← JsonProto.str
+    pure (.userFailOn k)
+  | "ubreak" => do
+    let k ← JsonProto.str
+    pure (.userBreaker k)
   | _ => failure
 
 def respondOf (t : List (String × Json)) (q : Json) : Json :=
